@@ -97,7 +97,8 @@ def to_spec(it):
     L, n = it["L"], it["n"]
     tasks = []
     for i in range(n):
-        t = {"id": NAMES[i], "effort": int(it["ef"][i] * L * it["eff"]), "alloc": list(ALLOCS[it["al"][i]]), "prio": it["pr"][i]}
+        m = it["ef"][i] * L * it["eff"]   # minutes of effort = whole slots at the resource's efficiency (7.5 min at L=15, eff 0.5)
+        t = {"id": NAMES[i], "effort": int(m) if float(m).is_integer() else float(m), "alloc": list(ALLOCS[it["al"][i]]), "prio": it["pr"][i]}
         if it["pin"] == i:
             t["start"] = "2025-01-07-10:00"
         tasks.append(t)
